@@ -9,7 +9,8 @@ valid parameters (expect `ok=1`) and on invalid ones (expect `ok=0`).
 Protocol (`c10 kind=<k> …`; every value is a decimal integer or a comma separated list):
 
   kind=filter  shape=<ints> fshape=<ints> mode=<0..5, Mode.ofCode>
-      -> `idx=<list> ok=<0|1> n=<len>`; `idx` lists, for every array position p (C scan order, outer)
+      -> `idx=<list> ok=<0|1> n=<len> rows=<list> nrows=<int>`; `rows` = for every array position the
+         row of the offsets table in use there (`tableRow`), `nrows` = `offsets_size`; `idx` lists, for every array position p (C scan order, outer)
          and every filter coordinate k (C scan order, inner), the C-order flat index of the element
          the filter iterator reads (`ravelZ`, signed), or -1 for the border flag. `ok=1` iff every
          non-flag coordinate list is inside `shape`.
@@ -156,6 +157,22 @@ def regionPos (a f : Nat) : Nat → Int
 def repPos : List Nat → List Nat → List Int → List Int
   | a :: as, f :: fs, p :: ps => regionPos a f (regionIndex a f p.toNat) :: repPos as fs ps
   | _, _, _ => []
+
+/-- `offsets_size` factors: `ashape[ii] < fshape[ii] ? ashape[ii] : fshape[ii]` per axis
+    (also the `step` of `init_filter_iterator`) -/
+def minShape : List Nat → List Nat → List Nat
+  | a :: as, f :: fs => min a f :: minShape as fs
+  | _, _ => []
+
+/-- per-axis region indices at array position `p` -/
+def regionIdxPos : List Nat → List Nat → List Int → List Int
+  | a :: as, f :: fs, p :: ps => (regionIndex a f p.toNat : Int) :: regionIdxPos as fs ps
+  | _, _, _ => []
+
+/-- the row of the offsets table in use at `p`: region indices weighted by the table strides
+    `strides[d] = Π_{e>d} step_e` (times `filter_size`, the row length) — a C-order flat index over `minShape`. -/
+def tableRow (ashape fshape : List Nat) (p : List Int) : Nat :=
+  ravelI (minShape ashape fshape) (regionIdxPos ashape fshape p)
 
 /-! ## B2 — `fast_binary_dilate_erode_2d` (`_morph.cpp`) -/
 
@@ -381,7 +398,8 @@ def handle (a : Args) : String :=
       let shape := a.nats "shape"
       let fshape := a.nats "fshape"
       let idx := filterIdx m shape fshape
-      s!"idx={showInts idx} ok={b2s (filterOk m shape fshape)} n={idx.length}"
+      let rows := (allPos shape).map (tableRow shape fshape)
+      s!"idx={showInts idx} ok={b2s (filterOk m shape fshape)} n={idx.length} rows={showNats rows} nrows={shapeSize (minShape shape fshape)}"
   | "region" =>
     let a' := a.nat "a"; let f := a.nat "f"
     let idx := (List.range a').map (regionIndex a' f)
